@@ -1137,6 +1137,12 @@ func (c *contextWriter) RequiredGas(input []byte) uint64 {
 }
 
 func (c *contextWriter) Run(ctx context.Context, input []byte) ([]byte, error) {
+	if c.ctx == nil {
+		// only CALL binds an execution context (see EVM.Call); without one the
+		// writer cannot be attributed to a contract
+		return nil, errors.New("context write without execution context")
+	}
+
 	if input == nil || len(input) < 128 {
 		return nil, nil
 	}
